@@ -37,6 +37,7 @@ PROPS = {
     },
     "C19": {
         "level": "proof",
+        "static": [static.registry_writers],
         "trusted": ["Dimension.define/derive: covered by the bounded stand-in only (Dimension.define rewrites every key of the intern table in a loop)"],
         "explanation": "Registry invariants I_R (units) and I_RP (prefixes): a name/symbol is bound to an object iff the object reports it. Unit.alias, "
                        "Unit.define and the named Prefix constructor are verified against 'bound and reported afterwards, from every prior state "
@@ -75,7 +76,7 @@ PROPS = {
     },
     "C08": {
         "level": "proof",
-        "static": [static.c08_memo, static.c08_state, static.memo_args],
+        "static": [static.c08_memo, static.c08_state, static.memo_args, static.core_state],
         "trusted": ["functools.lru_cache semantics (A10)", "dict insertion order of unit.factors may influence the planner (history dependence through factor order): bounded only"],
         "explanation": "Frame/memoisation obligations decided on the AST (only equate/translate write the tables; both invalidate every memoised function after their last "
                        "write; other memoised functions do not read the tables; no identity/time/randomness in the planner) + the contracts of equate/translate prove "
@@ -108,6 +109,7 @@ PROPS = {
     },
     "C18": {
         "level": "proof",
+        "static": [static.memo_args, static.core_state],
         "trusted": ["math.log / ** over the reals with the axioms: log strictly increasing, log x > 0 for x > 1, b**0 = 1, b**e > 0 for b > 0 (A4)",
                     "conversions.convert (as in C06)", "round trips level<->quantity and Level.__eq__: bounded stand-in only (needs exp/log inverse reasoning)",
                     "LogarithmicUnit construction (interning keyed by (logarithm, reference)): not under contract"],
@@ -116,6 +118,7 @@ PROPS = {
     },
     "C13": {
         "level": "other", "manifest_level": "other",
+        "static": [static.memo_args, static.core_state],
         "trusted": ["the generated LALR parser builds the tree the grammar assigns to the text (A10)"],
         "explanation": "Ground evaluation over the finite registry (every unit x every registered prefix, exponents, products, quantities, alternative spellings) of "
                        "the real str()/parse() pair; no contract is proved (string construction by generator expressions over characters and the LALR driver are "
@@ -123,6 +126,7 @@ PROPS = {
     },
     "C15": {
         "level": "other", "manifest_level": "other",
+        "static": [static.memo_args, static.core_state],
         "trusted": ["pickle/copy call cls.__new__(cls, *args, **kwargs) with __getnewargs_ex__ and restore slots (A10)", "json applies object_hook bottom-up (A10)"],
         "explanation": "Re-entry of __getnewargs_ex__/__from_json__ into the interning constructors is covered by the constructor contracts of C01/C02 (same key => same "
                        "object); the round trips themselves are checked natively over every registered dimension, prefix and unit and random compounds/quantities x 4 codecs. "
@@ -130,6 +134,7 @@ PROPS = {
     },
     "C17": {
         "level": "other", "manifest_level": "other",
+        "static": [static.memo_args, static.core_state, static.registry_writers],
         "trusted": ["the generated LALR driver raises only LarkError subclasses (A10)"],
         "explanation": "Frame part by contract: Unit.alias(None, None) and the constructor contracts show that building anonymous units never writes the name/symbol "
                        "registries; totality, determinism and registry snapshots are checked natively over edge inputs (5000-digit numbers, NUL, unicode digits, 100k characters), "
@@ -137,7 +142,7 @@ PROPS = {
     },
     "C20": {
         "level": "proof", "manifest_level": "other",
-        "static": [static.c20_locks, static.memo_args],
+        "static": [static.c20_locks, static.memo_args, static.core_state],
         "trusted": ["threading.RLock provides mutual exclusion; dict and lru_cache operations are atomic enough under the GIL (A10)",
                     "double initialisation of one fresh object by two threads writes identical values (outside the statement)"],
         "explanation": "Lock discipline (static, closed obligations): in each interning __new__ the registry test, the allocation and the insertion lie in one critical section "
